@@ -27,7 +27,7 @@ META = dict(
          "degenerate, not-nested ones must raise ValueError), span as list and tuple, x product series of 10 values "
          "(below/on/between/above every bound, NaN) in 3 orders + every series of length<=N; valid_range_test: every "
          "span over ({None,0,1,2,3})^2 as given x 4 inclusivity settings (+defaults) on the same series, integer-typed data with open and closed spans, float32/float16 data against non-dyadic limits (flags follow the exact values), 2-D inputs in C / Fortran / "
-         "transposed layout (flags stay with their elements), and the "
+         "transposed layout (flags stay with their elements), every nested (fail, suspect) pair of spans on the decimal tenths grid -0.7..0.9 with each grid value and its two float neighbours as data (endpoint membership exact whatever arithmetic decides it), and the "
          "datetime64 variant (6 instants incl. NaT, spans over {None,t0,t1}^2). Each state = one call of the real "
          "function, judged per point by the scalar reference. Scale: a 12345-point mixed series, its sorted gap-free versions (ascending / descending, every value repeated > 1000 times), 3000-point integer series and 5000-instant datetime series (mixed and sorted). non-trivial = reference demands SUSPECT/FAIL/MISSING "
          "or ValueError",
@@ -60,7 +60,7 @@ F32B = (0.1, 0.9, 5.3)
 
 def tasks(tier):
     n = NMAX[tier]
-    ts = [("f32",), ("layout",), ("valid_int",), ("int_ma",), ("valid_as",), ("nearspan",), ("valid_far",)]
+    ts = [("f32",), ("layout",), ("valid_int",), ("int_ma",), ("valid_as",), ("nearspan",), ("valid_far",), ("decimal",)]
     for f in itertools.product(B, repeat=2):
         ts.append(("gross", list(f), n))
     for lo in (None,) + B:
@@ -255,6 +255,22 @@ def run_task(task, acc):
                     for dhi in (0.0, 1e-9, -1e-9, 1e-4 * hi, np.nextafter(hi, np.inf) - hi):
                         yield dict(fn="gross", x=x, fail=fail, suspect=[lo + dlo, hi + dhi], span_carrier="list")
             yield dict(fn="gross", x=x, fail=[0.0, 0.3], suspect=[0.0, 0.1 + 0.2], span_carrier="list")
+        run_cases(acc, gen(), check_case)
+    elif kind == "decimal":
+        # spans and data written in decimal tenths (not representable in binary): a value exactly on an endpoint is inside,
+        # its float neighbours fall on the side they are on - whatever arithmetic the implementation uses to decide
+        def gen():
+            grid = [k / 10 for k in range(-7, 10)]
+            x = []
+            for g in grid:
+                x += [float(np.nextafter(g, -np.inf)), g, float(np.nextafter(g, np.inf))]
+            for i, flo in enumerate(grid):
+                for fhi in grid[i:]:
+                    yield dict(fn="gross", x=x, fail=[flo, fhi], suspect=None, span_carrier="list")
+                    inner = [g for g in grid if flo <= g <= fhi]
+                    for j, slo in enumerate(inner):
+                        for shi in inner[j:]:
+                            yield dict(fn="gross", x=x, fail=[flo, fhi], suspect=[slo, shi], span_carrier="list")
         run_cases(acc, gen(), check_case)
     elif kind == "valid_far":
         # coarse datetime units reaching far beyond the range of nanosecond timestamps
